@@ -204,13 +204,46 @@ def gen_multi_root(rng):
     return b.tasks
 
 
+def gen_wide_ends(rng):
+    """Motif: MANY END TASKS (a wide fork that no join closes, plus leaves at independent roots): the workflow's
+    final context is folded over them batch by batch.  A variable is published before the fork, republished
+    along one branch (twice), merely inherited by the other leaves; every leaf also publishes a variable of its
+    own (scalar or nested) that only the workflow output can show."""
+    b = _B(rng)
+    v = rng.choice(VARS[:3])
+    skel = rng.choice(SKELETONS)
+    root = b.add([], {v: fill(rng, skel, 'r')})
+    root = b.chain(root, rng.choice([0, 0, 1]))
+    n = rng.randint(3, 7)
+    special = rng.randrange(n)
+    for i in range(n):
+        own = {'w%d' % i: fill(rng, rng.choice(SKELETONS), 'e%d' % i)} if rng.random() < 0.8 else {}
+        cur = root
+        if i == special:
+            cur = b.add([cur], {v: fill(rng, skel, 'p')})
+            if rng.random() < 0.5:
+                cur = b.add([b.chain(cur, rng.choice([0, 1]), noise=False)], {v: fill(rng, skel, 'q')})
+            if rng.random() < 0.5:
+                b.add([cur], own)       # the latest publisher is not itself an end task
+                continue
+            b.tasks[-1]['published'].update(own)
+            continue
+        cur = b.chain(cur, rng.choice([0, 0, 1]), noise=False)
+        b.add([cur], own)
+    for i in range(rng.choice([0, 0, 1, 2])):
+        b.add([], {'z%d' % i: fill(rng, None, 'o%d' % i)})
+    return b.tasks
+
+
 def gen_history(rng, n=None):
     r = rng.random()
-    if n is not None or r < 0.5:
+    if n is not None or r < 0.45:
         return gen_random(rng, n)
-    if r < 0.78:
+    if r < 0.68:
         return gen_fork_nested(rng)
-    return gen_multi_root(rng)
+    if r < 0.85:
+        return gen_multi_root(rng)
+    return gen_wide_ends(rng)
 
 
 def run_history(ctx, hist, hashed):
@@ -297,9 +330,108 @@ def run_history(ctx, hist, hashed):
         outb[t['name']] = copy.deepcopy(real_out)
         # ---- C05 monitor: latest causal publisher wins
         check_latest(ctx, hist, t, in_ctx)
-    cfg.CONF.clear_override('hash_version_keys', group='context_versioning')
     tie_history(ctx, drv, hist, causal, inb, outb)
+    tie_final(ctx, drv, hist, inb, outb)
+    cfg.CONF.clear_override('hash_version_keys', group='context_versioning')
     return inb
+
+
+class _StubWfEx(object):
+    root_execution_id = None
+
+    def __init__(self, env, context, input_):
+        self.params = {'env': env}
+        self.context = context
+        self.input = input_
+
+
+def end_tasks(hist):
+    return [t['name'] for t in hist if not any(t['name'] in c['parents'] for c in hist)]
+
+
+def final_plan(hist):
+    """the order in which the database lists the end tasks and the batch size: a deterministic function of the
+    history (replays reproduce it)"""
+    import random
+    r = random.Random(json.dumps(hist, sort_keys=True, default=str))
+    ends = end_tasks(hist)
+    r.shuffle(ends)
+    return ends, r.choice([1, 2, 2, 3, 3, 4, 20])
+
+
+def real_final_context(ends, size, inb, hist):
+    """the REAL DirectWorkflowController.evaluate_workflow_final_context (and through it the real
+    evaluate_upstream_context with `additive_context`); only the database read is replaced: the rows come in
+    slices of `size` as get_completed_task_executions_as_batches yields them (20 in the code)"""
+    from mistral.workflow import direct_workflow
+    ctrl = object.__new__(direct_workflow.DirectWorkflowController)
+    rows = [FakeTaskEx(e, copy.deepcopy(inb[e]), copy.deepcopy(hist_pub(hist, e))) for e in ends]
+    ctrl._find_end_task_executions_as_batches = lambda: (rows[i:i + size] for i in range(0, len(rows), size))
+    return ctrl.evaluate_workflow_final_context()
+
+
+def tie_final(ctx, drv, hist, inb, outb):
+    """Stream `final`: "... visible to a task AND TO THE WORKFLOW OUTPUT".  The real final context over the end
+    tasks of the history, read in batches of 1..4 or 20 rows in a shuffled order, vs Hist.finalContext; the real
+    evaluate_workflow_output vs Hist.workflowOutput; monitors: the final context is what a join of ALL the end
+    tasks would see (leaf-granular causal monitor on a virtual task whose parents are the end tasks), every
+    leaf published by an end task is in the output, and another batch size shows the same."""
+    from mistral.workflow import data_flow
+    ends, size = final_plan(hist)
+    real = real_final_context(ends, size, inb, hist)
+    outs = [canon_ctx(outb[e]) for e in ends]
+    mo = drv.call('ctx.final', {'outs': outs, 'batch': size})
+    io = canon_ctx(real) if real else {'data': {}, 'vers': {}}
+    io['data'].pop('__task_execution', None)
+    ctx.evaluated('final', [outs, size], nontrivial=len(ends) > size)
+    ctx.count('final', 'ends:%d,batches:%d' % (min(len(ends), 8), min(-(-len(ends) // size), 4)))
+    replay = {'history': hist, 'final': True, 'ends': ends, 'batch': size}
+    if norm(mo) != norm(io):
+        ctx.disagree('final', {'fn': 'final', 'outs': outs, 'batch': size}, mo, io)
+    # ---- monitor: the final context = what a join of all the end tasks would see
+    virt = hist + [{'name': '<workflow output>', 'parents': list(ends), 'published': {}}]
+    causal = Causal(virt)
+    check_leaves(ctx, 'final', causal, '<workflow output>', io['data'], replay)
+    # ---- workflow output: default (whole final context) and variable references
+    env, wctx, inp = {'x': 'env'}, {'w0': 'var', VARS[1]: 'wfvar'}, {VARS[0]: 'input', VARS[1]: 'input', 'x': 'in'}
+    wf_ex = _StubWfEx(env, wctx, inp)
+    layers = [{'__env': env}, wctx, inp]
+    final_model = {'data': io['data'], 'vers': io['vers']}
+    for spec in ({}, {'o0': VARS[0], 'o1': VARS[1]}, {'o0': 'x'}):
+        try:
+            out = data_flow.evaluate_workflow_output(wf_ex, {o: '<% $.' + v + ' %>' for o, v in spec.items()},
+                                                     copy.deepcopy(real) if real else {})
+        except Exception as e:
+            out = 'error'
+        if isinstance(out, dict):
+            out = {k: v for k, v in out.items() if k != '__task_execution'}
+        mo2 = drv.call('ctx.output', {'spec': [[o, v] for o, v in sorted(spec.items())], 'final': final_model,
+                                      'layers': layers})
+        ctx.evaluated('final', ['output', final_model, sorted(spec.items())], nontrivial=bool(spec))
+        if norm(mo2) != norm(out):
+            ctx.disagree('final', {'fn': 'output', 'spec': spec, 'final': final_model}, mo2, out)
+        if not spec and isinstance(out, dict):
+            # ---- monitor: every leaf published by an end task is in the output (an end task has no successor, so
+            # nothing overrides it causally; a concurrent publisher of the same leaf may win, a leaf never vanishes)
+            for e in ends:
+                for v, leaves in causal.leaves[e].items():
+                    others = [a for a in causal.anc['<workflow output>'] if v in causal.leaves[a]]
+                    for p in leaves:
+                        if any(p not in causal.leaves[a][v] for a in others):
+                            continue        # the variable is also published with another shape: check_leaves decides
+                        if lookup(out, p)[0] != 'leaf':
+                            ctx.violation('end task %s published %s, the workflow output does not have it' % (e, '.'.join(p)),
+                                          dict(replay, leaf=list(p), end_task=e),
+                                          {'kind': 'end-task-publication-missing-from-output'})
+    # ---- monitor: batch-size independence (when no two concurrent end branches publish the same variable)
+    if len(ends) > 1 and not conflicting(virt, virt[-1]):
+        other = real_final_context(ends, 20 if size != 20 else 2, inb, hist)
+        oo = canon_ctx(other) if other else {'data': {}, 'vers': {}}
+        oo['data'].pop('__task_execution', None)
+        if norm(oo) != norm(io):
+            sig = ({'kind': 'versioning-value-shape-change'} if shape_change(hist)
+                   else {'kind': 'final-context-depends-on-batch-size'})
+            ctx.violation('the final context depends on the batch size of the database reads', replay, sig)
 
 
 def tie_history(ctx, drv, hist, causal, inb, outb):
